@@ -191,6 +191,7 @@ def run(chk):
     import encsess
     encsess.run(chk, 'session-large-writes', 1, rng)
     encsess.relogin_after_failure(chk, 'session-relogin')
+    encsess.key_exchange_with_pending_writes(chk, 'session-key-exchange')
     chk.assumptions += ['AES itself is validated (FIPS-197 vector by the kernel, random blocks and whole streams against the `cryptography` library), not proved against a standard',
                         'RSA is the library\'s; the model covers the PKCS#1 v1.5 block format and its removal, with RSA invertibility as a hypothesis',
                         '"fresh random" is checked as "16 bytes drawn from os.urandom once"; the quality of the OS generator is outside any model']
